@@ -27,37 +27,52 @@ def constraintStr (c : Amplification.Constraint) : String :=
   | .congestionLimited => "CongestionLimited"
   | .retransmissionOnly => "RetransmissionOnly"
 
-def render (p : Amplification.Path) (unblocked : Bool) : String :=
-  s!"ok {boolStr (Amplification.atAmplificationLimit p)} {constraintStr (Amplification.transmissionConstraint p false false)} {boolStr (Amplification.isValidated p)} {boolStr unblocked}"
+/-- driver state: the path plus the two predicates of the (mock) congestion controller set by `cc` -/
+structure AmpSt where
+  p : Amplification.Path
+  ccLimited : Bool := false
+  ccFast : Bool := false
+
+def render (s : AmpSt) (unblocked : Bool) : String :=
+  s!"ok {boolStr (Amplification.atAmplificationLimit s.p)} {constraintStr (Amplification.transmissionConstraint s.p s.ccLimited s.ccFast)} {boolStr (Amplification.isValidated s.p)} {boolStr unblocked}"
 
 /-- ops: `new server|client`, `recv <n>`, `send <n>` (`err limited` when the path is at the limit: the datagram
-    is not started), `validate`, `query`  ->  `ok <at limit> <constraint> <validated> <unblocked>` -/
-def ampStep (p : Amplification.Path) (t : List String) : Amplification.Path × String :=
+    is not started), `validate`, `query`, `cc <congestion limited 0|1> <requires fast retransmission 0|1>`
+    ->  `ok <at limit> <constraint> <validated> <unblocked>` -/
+def ampStep (s : AmpSt) (t : List String) : AmpSt × String :=
+  let p := s.p
   match t with
-  | ["new", "server"] => let q := Amplification.newServer Amplification.multiplier; (q, render q false)
-  | ["new", "client"] => let q := Amplification.newClient Amplification.multiplier; (q, render q false)
+  | ["new", "server"] => let q : AmpSt := { p := Amplification.newServer Amplification.multiplier }; (q, render q false)
+  | ["new", "client"] => let q : AmpSt := { p := Amplification.newClient Amplification.multiplier }; (q, render q false)
   | ["recv", n] =>
     match n.toNat? with
     | some n =>
-      if n > Amplification.usizeMax then (p, "bad-op") else
+      if n > Amplification.usizeMax then (s, "bad-op") else
       let (q, u) := Amplification.onBytesReceived p n
-      (q, render q u)
-    | none => (p, "bad-op")
+      let s' := { s with p := q }
+      (s', render s' u)
+    | none => (s, "bad-op")
   | ["send", n] =>
     match n.toNat? with
     | some n =>
-      if n > Amplification.usizeMax then (p, "bad-op")
-      else if !Amplification.canTransmit p then (p, "err limited")
+      if n > Amplification.usizeMax then (s, "bad-op")
+      else if !Amplification.canTransmit p then (s, "err limited")
       else match Amplification.onBytesTransmitted p n with
-        | some q => (q, render q false)
-        | none => (p, "err limited")
-    | none => (p, "bad-op")
-  | ["validate"] => let q := Amplification.onValidated p; (q, render q false)
-  | ["query"] => (p, render p false)
-  | _ => (p, "bad-op")
+        | some q => let s' := { s with p := q }; (s', render s' false)
+        | none => (s, "err limited")
+    | none => (s, "bad-op")
+  | ["validate"] => let s' := { s with p := Amplification.onValidated p }; (s', render s' false)
+  | ["query"] => (s, render s false)
+  | ["cc", l, f] =>
+    if (l == "0" || l == "1") && (f == "0" || f == "1") then
+      -- the mock controller reports "congestion limited" whenever it requires a fast retransmission
+      let s' := { s with ccLimited := l == "1" || f == "1", ccFast := f == "1" }
+      (s', render s' false)
+    else (s, "bad-op")
+  | _ => (s, "bad-op")
 
 def amplification : Component :=
-  { name := "amplification", σ := Amplification.Path, init := Amplification.newServer Amplification.multiplier, step := ampStep }
+  { name := "amplification", σ := AmpSt, init := { p := Amplification.newServer Amplification.multiplier }, step := ampStep }
 
 def components : List Component := [statelessReset, amplification]
 
